@@ -42,7 +42,7 @@ def counter_part(ctx):
     q = not ctx.thorough
     # 1a. exhaustive: linked-list counter refines the abstract counter
     r = ctx.mc("redis", "HotKeyList", "MC_HotKeyList_quick.cfg" if q else "MC_HotKeyList.cfg",
-               workers=8, timeout=600, coverage=q)
+               workers=8, timeout=600, coverage=ctx.thorough)
     if r.coverage:
         ctx.check_vacuity(r, "HotKeyList")
     if ctx.thorough:
@@ -59,7 +59,7 @@ def counter_part(ctx):
     ctx.cov["counter_transition_cover_complete"] = True
     # deeper seeded histories (7 keys, capacities 2..5, 60 accesses): long enough for a corrupted structure to
     # surface as a property break (new key admitted, grows hotter than a stranded key, next admission evicts)
-    nsim = 150 if ctx.thorough else 30
+    nsim = 150 if ctx.thorough else 20
     s = ctx.tlc("redis", "HotKeySim", "Sim_HotKey.cfg", mode="sim", workers=1, sim_num=nsim, sim_depth=80,
                 seed=ctx.seed, deadlock=False, timeout=300)
     if s.timeout or s.violated or (s.error and "@@BEH" not in s.stdout):
@@ -154,6 +154,64 @@ def sorted_kv(rep):
     return all(rep[i]["v"] >= rep[i + 1]["v"] for i in range(len(rep) - 1))
 
 
+def unique_kv(rep):
+    return len({x["k"] for x in rep}) == len(rep)
+
+
+def judge_readers(ctx, events, hists):
+    """The report properties judged directly on every recorded reader observation (between jobs and in
+    parallel with a job): sorted by non-increasing heat, no key twice, capped, only accessed keys, and a report a
+    reader holds is immutable (a second walk over the same slice sees what the first walk saw).
+    Returns {(event index, TLC invariant name)} of the observations found defective, and counters."""
+    judged = set()
+    counts = {}
+    n_obs = 0
+    cap, accessed, job, prev = 0, set(), None, []
+    last_rep = []
+    for i, e in enumerate(events):
+        ev = e["ev"]
+        if ev == "reset":
+            cap, accessed, job, prev, last_rep = e["cap"], set(), None, [], []
+        elif ev == "incr":
+            accessed.add(e["k"])
+        elif ev in ("collect", "evict"):
+            prev, last_rep, job = last_rep, e["rep"], e
+        if ev not in ("read", "pread"):
+            continue
+        n_obs += 1
+        view = e["view"]
+        h = hists[e["h"]]
+        where = ("reader-between-jobs" if ev == "read" else
+                 "reader-overlaps-%s" % ("collect-merge" if e["during"] == "collect" else "evict-stale"))
+        pub_broken = (not sorted_kv(last_rep) or not sorted_kv(prev) or not unique_kv(last_rep) or not unique_kv(prev))
+        art = {"history": h["h"], "source": h["source"], "capacity": h["cap"], "script": h["script"][:60],
+               "report_before": prev, "job": job, "view": view, "second_walk": e.get("again")}
+        desc = ("a HOTKEY reader %s read %s (published before the job: %s, after: %s)" %
+                ("between two jobs" if ev == "read" else "running in parallel with " + (job or {}).get("ev", "?"),
+                 [(x["k"], x["v"]) for x in view], [(x["k"], x["v"]) for x in prev], [(x["k"], x["v"]) for x in last_rep]))
+
+        def hit(inv, sig, what):
+            judged.add((i, inv))
+            counts[sig] = counts.get(sig, 0) + 1
+            ctx.violation(sig, what, art)
+
+        if not unique_kv(view):
+            dup = sorted({x["k"] for x in view if sum(1 for y in view if y["k"] == x["k"]) > 1})
+            hit("ViewUnique", "report-duplicate/" + where, "key(s) %s listed twice: %s" % (dup, desc))
+        if not sorted_kv(view) and not (pub_broken and not e.get("again")):
+            hit("ViewSorted", "report-unsorted/" + where, "not in non-increasing heat order: " + desc)
+        if len(view) > cap:
+            hit("ViewCapped", "report-over-capacity/" + where, "%d keys with capacity %d: %s" % (len(view), cap, desc))
+        if not {x["k"] for x in view} <= accessed:
+            hit("ViewOnlyAccessed", "report-unaccessed-key/" + where,
+                "keys never accessed: %s: %s" % (sorted({x["k"] for x in view} - accessed), desc))
+        if e.get("again") is not None:
+            hit("Immutable", "report-torn/concurrent-reader",
+                "the slice a reader got from HotKeys() changed under it: first walk %s, second walk %s (%s)" %
+                ([(x["k"], x["v"]) for x in view], [(x["k"], x["v"]) for x in e["again"]], desc))
+    return judged, counts, n_obs
+
+
 def collector_part(ctx):
     q = not ctx.thorough
     # scripts out of TLC (seeded simulation)
@@ -179,19 +237,21 @@ def collector_part(ctx):
     wfile = os.path.join(ctx.work, "collector-window-scripts.ndjson")
     kit.write_ndjson(wfile, wins)
     winrep, targeted = (6, 16) if q else (16, 100)
+    stress = 2 if q else 6
     tfile = os.path.join(ctx.work, "collector-trace.ndjson")
     hfile = os.path.join(ctx.work, "collector-histories.ndjson")
     nrand, heavy = (40, 4) if q else (400, 40)
     ctx.harness(["c19-collector", "-in", sfile, "-n", str(nrand), "-heavy", str(heavy), "-trace", tfile, "-sum", hfile,
-                 "-win", wfile, "-winrep", str(winrep), "-targeted", str(targeted)], timeout=900)
+                 "-win", wfile, "-winrep", str(winrep), "-targeted", str(targeted), "-stress", str(stress),
+                 "-readers", "4"], timeout=900)
     events = kit.read_ndjson(tfile)
     hists = kit.read_ndjson(hfile)
-    expected = len(scripts) + nrand + len(wins) * winrep + targeted
+    expected = len(scripts) + nrand + len(wins) * winrep + targeted + stress
     if len(hists) != expected:
         raise kit.Inconclusive("collector driver: %d histories, expected %d" % (len(hists), expected))
     for h in hists:
-        if h.get("panic"):
-            raise kit.Inconclusive("collector history %d panicked: %s" % (h["h"], h["panic"]))
+        if h.get("panic") or h.get("reader_panic"):
+            raise kit.Inconclusive("collector history %d panicked: %s" % (h["h"], h.get("panic") or h.get("reader_panic")))
     straddle = sum(1 for h in hists if h["straddles"])
     overlap = sum(1 for h in hists if h["overlap"])
     ctx.cov["collector_histories"] = {"from_tlc": len(scripts), "random": nrand, "from_tlc_window": len(wins) * winrep,
@@ -224,7 +284,14 @@ def collector_part(ctx):
     ctx.cov["collector_histories"]["through_evict_window_drop_and_reorder"] = len(win_hist)
     ctx.cov["collector_histories"]["of_which_drops_ge_fresh_survivors"] = len(strong_hist)
     ctx.cov["collector_histories"]["window_scripts_from_tlc"] = len(wins)
-    if straddle < 5 or sum(h["ploops"] for h in hists) < 1000 or len(strong_hist) < 3:
+    # mandatory stratum: HOTKEY readers that walk the published slice WHILE collect merges (reader-stress histories:
+    # 12 periods of 8 very hot keys, 4 readers); counted are walks that began and ended inside a running job
+    sh = [h for h in hists if h["source"] == "reader-stress"]
+    ctx.cov["collector_histories"]["reader_stress"] = {"histories": len(sh), "periods": sum(h["collects"] for h in sh),
+                                                      "reports_walked_while_a_job_ran": sum(h["during"] for h in sh)}
+    ctx.cov["collector_histories"]["reports_walked_while_a_job_ran"] = sum(h["during"] for h in hists)
+    if (straddle < 5 or sum(h["ploops"] for h in hists) < 1000 or len(strong_hist) < 3
+            or len(sh) < stress or any(h["during"] < 200 or h["collects"] < 12 for h in sh)):
         raise kit.Inconclusive("collector driver did not exercise the windows: %s" % ctx.cov["collector_histories"])
     for h in hists:
         ctx.case(key="coll:" + json.dumps(h["script"], sort_keys=True),
@@ -234,17 +301,32 @@ def collector_part(ctx):
                                       "first_job_event": next((e for e in events[hh["first"]:hh["first"] + hh["events"]]
                                                                if e["ev"] in ("collect", "evict")), None)}})
 
+    # the statement judged directly on every reader observation (TLC evaluates the same predicates below, but a
+    # trace that the trace spec rejects is not followed to its end)
+    judged, rcounts, n_obs = judge_readers(ctx, events, hists)
+    ctx.cov["reader_observations_judged"] = n_obs
+    if rcounts:
+        ctx.cov["reader_observations_defective"] = rcounts
+
     # code -> spec: TLC judges the trace
     r = ctx.validate_traces("redis", "HotKeyCollectorTrace", "Trace_HotKeyCollector.cfg", events, len(hists), timeout=600)
     if r.ok:
+        if judged:
+            raise kit.Inconclusive("reader observations break the statement but TLC accepted the trace with all invariants: %s" % rcounts)
         return
     # something is wrong: follow the whole trace and list every state that breaks a property
     d = ctx.validate_traces("redis", "HotKeyCollectorTrace", "Trace_HotKeyCollector_diag.cfg", events, len(hists), timeout=600)
     if d.reject is not None or not d.ok:
         idx = d.reject[0] if d.reject else -1
         ev = events[idx - 1] if 0 < idx <= len(events) else None
-        raise kit.Inconclusive("recorded collector trace is not a behaviour of HotKeyCollectorTrace at event %d: %s"
-                               % (idx, json.dumps(ev)[:600]))
+        msg = ("recorded collector trace is not a behaviour of HotKeyCollectorTrace at event %d: %s" % (idx, json.dumps(ev)[:600]))
+        if judged:
+            # the binding did its job (the real collector left the model) and the statement's own predicates
+            # already failed on recorded reader observations: the violations stand
+            ctx.notes.append(msg)
+            ctx.cov["trace_rejected_at_event"] = idx
+            return
+        raise kit.Inconclusive(msg)
     bads = [p for (tag, p) in d.prints if tag == "BAD"]
     if not bads:
         raise kit.Inconclusive("TLC reported %s on the trace but the diagnosis run found no failing state" % r.violated)
@@ -289,7 +371,7 @@ def collector_part(ctx):
             p = job_before(j - 1)
             prev = events[p].get("rep", []) if p >= 0 else []
             for inv in names:
-                if inv not in VIEW_INVS:
+                if inv not in VIEW_INVS or (i, inv) in judged:
                     continue
                 if inv == "ViewSorted" and (not sorted_kv(job.get("rep", [])) or not sorted_kv(prev)):
                     continue    # the published report itself was out of order: reported above
@@ -305,7 +387,7 @@ def collector_part(ctx):
                 ctx.violation(sig, what, {"history": h["h"], "capacity": h["cap"], "script": h["script"],
                                           "report_before": prev, "job": job, "view": e["view"]})
     ctx.cov["collector_failing_states"] = counts
-    if not counts:
+    if not counts and not judged:
         raise kit.Inconclusive("TLC reported %s on the trace but no failing state could be attributed" % r.violated)
 
 
